@@ -15,7 +15,7 @@ import torch
 import inferno
 from inferno.neural import LinearDense, LinearDirect, LIF, ALIF, DeltaCurrent, SingleExponentialCurrent, Serial, Biclique, RecurrentSerial
 
-from mc.common import Tally
+from mc.common import Tally, Guard
 from mc.pool import run_shards
 
 ID = "C17"
@@ -110,7 +110,10 @@ def serial_shard(variant, T):
     for t in range(T):
         tally.add("steps")
         try:
-            out, inter = layer(xs[t], capture_intermediate=True)
+            xin = xs[t].clone()
+            g = Guard(xin)
+            out, inter = layer(xin, capture_intermediate=True)
+            g.release(tally, "input-mutated:Serial", {**case, "step": t})
         except Exception as ex:
             tally.violation(f"exception:forward:Serial:{type(ex).__name__}", {**case, "step": t}, repr(ex))
             return tally
@@ -265,7 +268,10 @@ def recurrent_shard(variant, T):
     for t in range(T):
         tally.add("steps")
         try:
-            (o_ff, o_fb), inter = layer(xs[t], capture_intermediate=True)
+            xin = xs[t].clone()
+            g = Guard(xin)
+            (o_ff, o_fb), inter = layer(xin, capture_intermediate=True)
+            g.release(tally, "input-mutated:RecurrentSerial", {**case, "step": t})
         except Exception as ex:
             tally.violation(f"exception:forward:RecurrentSerial:{type(ex).__name__}", {**case, "step": t}, repr(ex))
             return tally
